@@ -6,7 +6,7 @@
   order respects real time. Together with C13 this gives "of several concurrent terminators of one transaction
   exactly one emits its terminal event".
   The premise is not assumed silently: the lock structure of every Agent method is regenerated from agent.go on every
-  run (Stun/Gen/Generated.lean) and `Tie/AgentLocks.lean` proves that it has this shape.
+  run (Stun/Gen/Generated.lean) and `Tie/Locks.lean` (`agentLocks`) proves that it has this shape.
   Not carried by the theorem (runtime truth): Go's mutex and memory model, the race detector's verdict, actual
   scheduling, deadlock freedom — observed by the `agent-conc` stream under `-race` with a linearizability checker.
 -/
